@@ -494,7 +494,7 @@ Fixpoint wtb (s : schema) (v : value) {struct v} : bool :=
              match fs, vs with
              | [], [] => true
              | (h, fsch) :: fs', v :: vs' =>
-                 (match v with VDefault => f_oe h | _ => wtb fsch v end)
+                 (omitted h fsch v || wtb fsch v)
                  && (negb (f_req h) || negb (is_zero fsch v))
                  && go fs' vs'
              | _, _ => false
